@@ -766,6 +766,10 @@ def correspondence(ctx):
             ctx.violation("acceptance rule: " + "; ".join(bad[:3]), meta[-1], key="accept")
     ctx.sample(meta[-1])
     size = sum(len(c) for c in cases)
+    rc, out = lib.coq_make(["Corr/CheckC09.vo"])     # the checker's own cone (Gen/SrcConsts.v may have changed)
+    if rc != 0:
+        K["error"] = out[-1500:]
+        return [{"error": "Corr/CheckC09.v does not build", "log": out[-1500:]}]
     shard = max(1, int(len(cases) / max(16.0, size / 400e3)))
     codes, log = lib.run_coq_cases(ctx.cid, "K", HEADER, cases, shard=shard)
     K["cases"] = len(cases)
